@@ -298,6 +298,10 @@ class IKRun:
         if k == "pose":
             t = tm(list(g["taa"]))
             return t, np.array(t.gTM(), float), None
+        if k == "current":
+            # "hold position": the pose the arm currently reports (stale after a tool change without a refresh)
+            t = self.arm.getEEPos()
+            return t, np.array(t.gTM(), float), None
         raise HarnessError("unknown goal kind")
 
     # ---- draw scripts for the restart policy -----------------------------------------
@@ -373,7 +377,7 @@ class IKRun:
                         info["start"] = start.copy()
                     ret = arm.IKFree(goal, start, list(st["inds"]))
             elif op == "FK":
-                arm.FK(np.array(st["theta"], float))
+                arm.FK(np.array(st["theta"], float), bool(st.get("protect", False)))
             elif op == "move":
                 arm.move(tm(list(st["base"])), bool(st.get("stationary", False)))
             elif op == "home":
@@ -540,6 +544,10 @@ class IKRun:
         P["path_" + path] += 1
         if g["k"] == "beyond":
             P["goal_beyond_reach"] += 1
+        if g["k"] == "current":
+            P["goal_is_current_reported_pose"] += 1
+            if not info["pre_coherent"]:
+                P["goal_is_stale_reported_pose"] += 1
         if g.get("boundary"):
             P["goal_on_limit_boundary"] += 1
         if self._moved:
@@ -682,7 +690,9 @@ def gen_trace(seed):
         return out
 
     def goal():
-        k = pick_weighted(ro, [("fk", 6.0), ("boundary", 1.5), ("beyond", 1.5), ("pose", 0.7)])
+        k = pick_weighted(ro, [("fk", 6.0), ("boundary", 1.5), ("beyond", 1.5), ("pose", 0.7), ("current", 1.0)])
+        if k == "current":
+            return {"k": "current"}, None
         if k == "fk":
             th = in_limits(ro.choice([0.3, 0.6, 1.0]), margin=ro.choice([0.0, 0.16]))
             return {"k": "fk", "theta": [round(x, 6) for x in th]}, th
@@ -767,7 +777,13 @@ def gen_trace(seed):
             steps.append(ikfree_step())
             n_ik += 1
         elif k == "FK":
-            steps.append({"op": "FK", "theta": [round(x, 6) for x in in_limits(1.0)]})
+            st = {"op": "FK", "theta": [round(x, 6) for x in in_limits(1.0)]}
+            if ro.random() < 0.25:
+                # unprotected FK may park the arm outside its limits
+                j = ro.randrange(n)
+                st["theta"][j] = float(maxs[j] + ro.uniform(0.05, 0.6))
+                st["protect"] = True
+            steps.append(st)
         elif k == "move":
             steps.append({"op": "move", "base": [round(ro.uniform(-3, 3), 3) for _ in range(3)] + [round(ro.uniform(-1.5, 1.5), 3) for _ in range(3)],
                           "stationary": ro.random() < 0.3, "rs": {"kinds": ["uniform"], "seed": ro.getrandbits(32)}})
@@ -827,7 +843,8 @@ EXPECTED_PROBES = ["success_first_attempt", "success_on_restart", "success_on_re
                    "all_restarts_failed", "failure_check_false", "path_free", "path_constrained", "path_ikfree",
                    "tol_pos_gt_rot", "tol_rot_gt_pos", "goal_on_limit_boundary", "goal_beyond_reach",
                    "unreachable_goal_reported_failure", "solve_after_move_or_retool", "start_from_current_state",
-                   "local_clause_applicable", "move_stationary_internal_ik"]
+                   "local_clause_applicable", "move_stationary_internal_ik", "goal_is_current_reported_pose",
+                   "goal_is_stale_reported_pose"]
 
 
 def warmup():
